@@ -23,6 +23,7 @@ pub fn def() -> CheckDef {
         assumptions: &["real file I/O goes to /verif/target/tmp and is removed afterwards; it is deterministic because the run is single-threaded"],
         cpu_limit_s: 60,
         fault_kinds: "F-SR short reads, F-SW short writes, F-EI interrupted calls (rate-based, dense); backends Cursor and std::fs::File",
+        count_subruns: false,
     }
 }
 
